@@ -6,6 +6,8 @@ c01's later sections as their models land.  Model: lean/GEVerif/Model/{Grammar,T
 """
 from __future__ import annotations
 
+import sys
+
 import gram
 import synth
 from core import Harness, sx
@@ -288,6 +290,51 @@ def preset_scenario(h: Harness, rng):
                 st, geno = safe(lambda: rep.mutate(r, geno))
 
 
+def int_literal_float_bounds(h: Harness, rng):
+    """float fields refined with int-literal bounds (FloatRange(0, 9)): whatever representation creates the program and whatever
+    gene selects the value -- the extreme genes included -- the field holds a value of exactly the declared base type, a float"""
+    import ctxgrammar
+    from geneticengine.representations.grammatical_evolution import dynamic_structured_ge as dsge_mod
+    from linear import DSGE, GE, SGE, safe
+    from geneticengine.random.sources import NativeRandomSource
+    from geneticengine.representations.tree.treebased import TreeBasedRepresentation
+    g = ctxgrammar.int_literal_float_grammar()
+    r = NativeRandomSource(rng.randrange(10**6))
+    programs = []
+    # dynamic SGE genotypes whose float genes are the extreme ones (0, the maximum 1024, values congruent to them, huge ones)
+    rep = DSGE(g, 4)
+    for genes in ([1024] * 12, [0] * 12, [2049, 1024, 0, 1025] * 3, [sys.maxsize, 1024 + 1025 * 7, 3] * 4, [rng.randrange(0, 1025) for _ in range(12)]):
+        for first in (0, 1):
+            geno = dsge_mod.Genotype(r, {float: list(genes), ctxgrammar.FX: [first, 0, 1, 0, 0, 1, 0, 0]})
+            st, p = safe(lambda: rep.genotype_to_phenotype(geno))
+            if st == "ok":
+                programs.append(("DynamicSGE", f"float genes {genes[:4]}...", p))
+    for name, mk in (("tree", lambda: TreeBasedRepresentation(g, synth.make_decider("grow", 4, r, g))), ("GE", lambda: GE(g, synth.make_decider("grow", 4, r, g), gene_length=64)),
+                     ("SGE", lambda: SGE(g, synth.make_decider("grow", 4, r, g), gene_length=64)), ("DynamicSGE", lambda: DSGE(g, 4))):
+        rp = mk()
+        for _ in range(h.n(8, 60)):
+            st, geno = safe(lambda: rp.create_genotype(r))
+            if st != "ok":
+                continue
+            st, p = safe(lambda: rp.genotype_to_phenotype(geno))
+            if st == "ok":
+                programs.append((name, "created with NativeRandomSource", p))
+            st, geno2 = safe(lambda: rp.mutate(r, geno))
+            if st == "ok":
+                st, p = safe(lambda: rp.genotype_to_phenotype(geno2))
+                if st == "ok":
+                    programs.append((name, "mutant", p))
+    for name, how, p in programs:
+        h.count(f"int-literal-float-bounds:{name}")
+        h.seen(f"float-literal:{name}:{how}:{repr(p)[:80]}", nontrivial=True)
+        for path, v, lo, hi in ctxgrammar.float_fields(p):
+            if type(v) is not float:
+                h.fail(f"{name}.genotype_to_phenotype" if name != "tree" else "TreeBasedRepresentation.create_genotype", "ill-typed-program",
+                       f"field {path} declared Annotated[float, FloatRange({lo}, {hi})] holds {v!r} of type {type(v).__name__} ({how}) in {repr(p)[:120]}",
+                       [name, how, path])
+                break
+
+
 def corpus():
     """fixed witnesses of type shapes the generator only meets by luck: size-refined lists whose elements are lists /
     refined values / tuples / unions, nested wrappers"""
@@ -302,6 +349,14 @@ def corpus():
         gram.Spec([C("A0", True, None), C("Leaf", False, 0, []),
                    C("Deep", False, 0, [("m", ("list", ("ann", ("list", ("ann", ("list", ("cls", 0)), ("listSize", 1, 1))), ("listSize", 1, 2))))]),
                    C("T", False, 0, [("t", ("tuple", ("list", r02), ("ann", ("tuple", "int", "int"), ("interval", 1, 2, 4))))])], 0, [1, 2, 3]),
+        # unions one of whose alternatives is a WRAPPED type (a list / a tuple / a refined list of the recursive symbol) beside a plain class:
+        # the alternative chosen is built as declared -- a list where the list was chosen, never a bare element
+        gram.Spec([C("A0", True, None), C("Lit", False, 0, [("k", r02)]), C("Add", False, 0, [("l", ("cls", 0)), ("r", ("cls", 0))]),
+                   C("Block", False, 0, [("body", ("union", ("list", ("cls", 0)), ("cls", 1)))]),
+                   C("Pick", False, 0, [("c", ("union", ("tuple", ("cls", 0), "bool"), ("cls", 1))),
+                                        ("d", ("union", ("cls", 1), ("ann", ("list", ("cls", 0)), ("listSize", 1, 2))))])], 0, [1, 2, 3, 4]),
+        gram.Spec([C("A0", True, None), C("Lit", False, 0, []), C("Neg", False, 0, [("e", ("cls", 0))]),
+                   C("Prog", False, None, [("main", ("union", ("list", ("cls", 0)), ("cls", 1))), ("k", r02)])], 3, [1, 2, 3]),
     ]
 
 
@@ -309,6 +364,7 @@ def run(h: Harness):
     rng = h.rng
     check_evaluators(h)
     preset_scenario(h, rng)
+    int_literal_float_bounds(h, rng)
     retarget_scenario(h, rng)
     for spec in corpus():
         b = gram.build(spec)
